@@ -17,11 +17,12 @@ Section Thm.
   Notation rt_write := (rt_write E cf).
 
   (* every active target (flags [act]) of the evaluation result r is within
-     its tolerance *)
+     its tolerance: |transform_i(r_i) - value_i| < tol_i, where transform_i is the
+     target's `transform` hook (the identity when it has none) *)
   Definition within_tol (act : list bool) (r : list F) : Prop :=
     forall i ri v t, nth_error act i = Some true -> nth_error r i = Some ri ->
       nth_error (c_tval cf) i = Some v -> nth_error (c_tol cf) i = Some t ->
-      e_ltb E (e_abs E (e_sub E ri v)) t = true.
+      e_ltb E (e_abs E (e_sub E (apply_tr E (tr_at E cf i) ri) v)) t = true.
 
   Lemma synced_flag s : synced s -> lpwt s = true ->
     exists r, e_f E (knobs s) = Some r /\ lres s = r /\ within_tol (ta s) r.
